@@ -408,6 +408,38 @@ def awkward_variants(op, cases, tier, salt):
             return v, a
         yield {"name": f"awkward:{sname}:{route}:physical={kd}", "backend": "awkward", "pairing": "paired", "build": build_twin,
                "struct": st, "route": route, "extra": route != "with_name"}
+    # integer-typed and float32 leaves on the receiving array (the object reference gets the same integers / rounded values)
+    import awkward as _ak
+
+    def retyped(arr, dt):
+        return _ak.Array(_ak.values_astype(arr, dt).layout, behavior=arr.behavior)
+
+    try:
+        icases = [(int_lvec(c[0]), c[1]) for c in cases]
+    except R.NotRepresentable:
+        icases = None
+    if icases is not None:
+        def build_int(icases=icases):
+            v = retyped(mkarr([c[0] for c in icases], S["jagged"], "with_name", False), numpy.int64)
+            a = list(plain)
+            for j in vecpos:
+                a[j] = mkarr([c[1][j] for c in cases], S["jagged"], "with_name", False)
+            return v, a
+        yield {"name": "awkward:jagged:int64-leaves", "backend": "awkward", "pairing": "intcols", "build": build_int,
+               "struct": S["jagged"], "route": "with_name", "extra": False, "cases": icases}
+    try:
+        fcases = [(f32_lvec(c[0]), [f32_lvec(a_) if isinstance(a_, LVec) else a_ for a_ in c[1]]) for c in cases]
+    except R.NotRepresentable:
+        fcases = None
+    if fcases is not None and (op.result != "bool" or op.name in ("equal", "not_equal")):
+        def build_f32(fcases=fcases):
+            v = retyped(mkarr([c[0] for c in fcases], S["jagged"], "zip", False), numpy.float32)
+            a = list(plain)
+            for j in vecpos:
+                a[j] = retyped(mkarr([c[1][j] for c in fcases], S["jagged"], "zip", False), numpy.float32)
+            return v, a
+        yield {"name": "awkward:jagged:float32-leaves", "backend": "awkward", "pairing": "f32cols", "build": build_f32,
+               "struct": S["jagged"], "route": "zip", "extra": False, "cases": fcases, "tol": mpf(10) ** -4}
     # extra fields deeper than the vectors (a list of hits and a string per vector) on the receiving array
     for i_, sname in enumerate(("jagged", "flat", "option_list") if tier == "thorough" else (("jagged", "flat", "option_list")[k % 3],)):
         route = ("zip", "with_name")[(k + i_) % 2]   # vector.Array type-checks every field: numeric extra fields only
